@@ -518,6 +518,7 @@ theorem xInv_step {N : Numbering} {H : IdFn} {s : Bool} {g : Graph} {ds : DS} (h
     simp only [Graph.step]
     exact xInv_ds (xInv_frame (stable_arcPolicy hs
       (xInv_frame (g' := { g with polKeys := C02.mset nid key g.polKeys }) hi rfl rfl) nid v) rfl rfl) rfl rfl rfl
+  | passthru c key v => exact xInv_ds (stable_emit hs hi _) rfl rfl rfl
   | other => exact hi
 
 theorem xInv_run {N : Numbering} {H : IdFn} {s : Bool} : ∀ (h : List HStep) {g : Graph} {ds : DS},
